@@ -1551,6 +1551,9 @@ func FunExpr(query *Query, current Map, expr *sqlparser.FuncExpr, opts ...ExprOp
 				return nil, e
 			}
 			var rs any
+			// the call runs next to the query, which may still write to the row (the
+			// `dual` row is the registry of the common table expressions)
+			current := RowSnapshot(current)
 			query.wg.Add(1)
 			go func() {
 				defer query.wg.Done()
@@ -1575,6 +1578,7 @@ func FunExpr(query *Query, current Map, expr *sqlparser.FuncExpr, opts ...ExprOp
 			if e != nil {
 				return nil, e
 			}
+			current := RowSnapshot(current)
 			go func() {
 				defer query.reportPanic()
 				_, err := function(query, current, nil, slice)
@@ -1595,6 +1599,7 @@ func FunExpr(query *Query, current Map, expr *sqlparser.FuncExpr, opts ...ExprOp
 			if e != nil {
 				return nil, e
 			}
+			current := RowSnapshot(current)
 			query.wg.Add(1)
 			go func() {
 				defer query.wg.Done()
@@ -2141,6 +2146,15 @@ func RecoveredError(r any) error {
 		return err
 	}
 	return fmt.Errorf("%v", r)
+}
+
+// A copy of the top level of a row
+func RowSnapshot(row Map) Map {
+	out := make(Map, len(row))
+	for key, value := range row {
+		out[key] = value
+	}
+	return out
 }
 
 func (query *Query) IsDual() bool {
